@@ -353,7 +353,7 @@ const ModulePath = "vx"
 // ImportSpec returns the quoted import path for a package key.
 func ImportSpec(pkg string) string {
 	switch pkg {
-	case "unsafe", "fmt", "errors", "context", "time":
+	case "unsafe":
 		return fmt.Sprintf("%q", pkg)
 	}
 	return fmt.Sprintf("%q", ModulePath+"/"+pkg)
